@@ -255,6 +255,10 @@ func (fv *FV) typeAssert(st *State, v Term, target types.Type, pos token.Pos) (T
 		if c := v.Sort.CtorFor(target); c != nil {
 			return Term{sx(c.Acc, v.S), c.Payload}, Term{"(" + c.Tester + " " + v.S + ")", SBool}
 		}
+		if _, isTP := types.Unalias(target).(*types.TypeParam); isTP {
+			fv.note("type assertion to a type parameter is assumed to succeed: " + target.String())
+			return fv.fresh("astp", tso), tBool(true)
+		}
 		// assertion to an interface type (e.g. HasAsset): success unknown, payload unknown
 		if _, isI := target.Underlying().(*types.Interface); isI {
 			var ok []Term
@@ -485,8 +489,14 @@ func (fv *FV) box(st *State, v Term, from types.Type, to *Sort, pos token.Pos) T
 		if c := to.CtorFor(from); c != nil {
 			return Term{sx(c.Name, v.S), to}
 		}
-		if v.Sort.Kind == KOpaque { // nil of interface type
-			return Term{to.NilCtor(), to}
+		if v.Sort.Kind == KOpaque {
+			if b, ok := from.Underlying().(*types.Basic); ok && b.Kind() == types.UntypedNil {
+				return Term{to.NilCtor(), to}
+			}
+			// value of a type parameter / opaque type converted to the interface: unknown variant
+			r := fv.fresh("variant", to)
+			st.assume(tNot(tEq(r, Term{to.NilCtor(), to})))
+			return r
 		}
 		fv.abort(pos, "%s is not a variant of %s", from, to.Name)
 	case KErr:
@@ -496,11 +506,23 @@ func (fv *FV) box(st *State, v Term, from types.Type, to *Sort, pos token.Pos) T
 		st.assume(T(sx("errIs", r.S, fv.ss.StrConst("errclass:"+typeBaseName(from))), SBool))
 		return r
 	case KOpaque:
-		r := fv.fresh("boxed", to)
+		// deterministic injection into the opaque sort
+		fn := "box_" + mangle(v.Sort.Name) + "_" + mangle(to.Name)
+		d := "(declare-fun " + fn + " (" + v.Sort.Name + ") " + to.Name + ")"
+		found := false
+		for _, x := range fv.decls {
+			if x == d {
+				found = true
+				break
+			}
+		}
+		if !found {
+			fv.decls = append(fv.decls, d)
+		}
+		r := Term{sx(fn, v.S), to}
 		if v.Sort.Kind == KPtr || v.Sort.Kind == KStruct {
 			st.assume(tNot(tEq(r, Term{fv.ss.Zero(to), to})))
 		}
-		fv.boxed[r.S] = v
 		return r
 	case KFn:
 		return v
